@@ -213,6 +213,8 @@ func (o *Oracle) Encrypt(assertionEl *etree.Element, spCert *fx.KeyPair, blockAl
 // Bytes serialises an element as a document.
 func Bytes(el *etree.Element) []byte {
 	doc := etree.NewDocument()
+	// carriage returns in text must be written as character references or the next parser turns them into line feeds
+	doc.WriteSettings = etree.WriteSettings{CanonicalText: true}
 	doc.SetRoot(el.Copy())
 	b, err := doc.WriteToBytes()
 	if err != nil {
